@@ -1103,6 +1103,12 @@ mod repr {
             return Inexact(f, Sign::Positive);
         }
 
+        // the cast back saturates: DoubleWord::MAX is rounded up to a power of two that
+        // would come back as DoubleWord::MAX again
+        if dword == DoubleWord::MAX {
+            return Inexact(f, Sign::Positive);
+        }
+
         let back = f as DoubleWord;
         match back.partial_cmp(&dword).unwrap() {
             Ordering::Greater => Inexact(f, Sign::Positive),
@@ -1114,6 +1120,11 @@ mod repr {
     fn to_f64_small(dword: DoubleWord) -> Approximation<f64, Sign> {
         const_assert!((DoubleWord::MAX as f64) < f64::MAX);
         let f = dword as f64;
+        // the cast back saturates: DoubleWord::MAX is rounded up to a power of two that
+        // would come back as DoubleWord::MAX again
+        if dword == DoubleWord::MAX {
+            return Inexact(f, Sign::Positive);
+        }
         let back = f as DoubleWord;
 
         match back.partial_cmp(&dword).unwrap() {
